@@ -65,6 +65,8 @@ def candidate_domain(ctx):
     out.append(a3)  # v3 body without prefix
     out.append(pre[-1] + a2)  # v2 body behind a v3 prefix
     out.append(pre[-1].lower() + a3.lower())
+    out.append(pre[-1] + a3.lower())
+    out.append(pre[-1] + a3 + "/")
     res = []
     seen = set()
     for s in out:
@@ -229,12 +231,13 @@ class TextSemantics(object):
         # the argument must be one of this row's candidates, untransformed
         cands = [Fin(("cand:%d" % i,), dict(((s,), s) for s in self.strings)) for i in range(self.K)]
         if isinstance(arg, Const):
-            foreign = Const(arg.v not in self.strings)
+            foreign = Const(not any(arg.v in c_ for c_ in self.strings))
         else:
-            foreign = fo.fold(lambda a, *cs: a not in cs, [arg] + cands)
+            # "built from a substring of the text": a part of a candidate is one, a re-spelling is not
+            foreign = fo.fold(lambda a, *cs: not any(a in c_ for c_ in cs), [arg] + cands)
         d = self.ev.decide(st, foreign)
         if d is not False:
-            self.arg_faults.append((module.where(node), short(node), "it can receive a string that is not one of the matched candidates (a transformed match)"))
+            self.arg_faults.append((module.where(node), short(node), "it can receive a string that is not a substring of the matched text (a re-spelled match)"))
         for kind, exc in (("malformed", "CVSS%dMalformedError" % v), ("mandatory", "CVSS%dMandatoryError" % v)):
             if isinstance(arg, Const):
                 cond = Const(classify(arg.v) == kind)
@@ -405,40 +408,12 @@ class TextSemantics(object):
 
     def value_at(self, st2, t):
         """Value of a term of the value graph at one full assignment of the candidates."""
-        from .interp import truth_const
-        from .terms import App, BoolOp
+        from .pointeval import value_at
 
-        pins = st2.dom
-        if isinstance(t, Const):
-            return t.v
-        if isinstance(t, Fin):
-            key = tuple(pins[s][0] for s in t.slots)
-            if key not in t.table:
-                raise Dead()  # a row the path excluded
-            return t.table[key]
-        if isinstance(t, BoolOp):
-            if t.op == "not":
-                return not truth_const(self.value_at(st2, t.args[0]))
-            # rows a path excluded are absent from its tables: they are irrelevant when another
-            # operand already decides the connective
-            unknown = False
-            for a in t.args:
-                try:
-                    x = truth_const(self.value_at(st2, a))
-                except Dead:
-                    unknown = True
-                    continue
-                if t.op == "and" and not x:
-                    return False
-                if t.op == "or" and x:
-                    return True
-            if unknown:
-                raise Dead()
-            return t.op == "and"
-        if isinstance(t, App) and t.op == "ite":
-            c, a, b = t.args
-            return self.value_at(st2, a if truth_const(self.value_at(st2, c)) else b)
-        raise AnalysisError("C13.sem", "value %r is not decided by the candidates" % (t,), self.f.node, self.f.module)
+        try:
+            return value_at(dict((s_, d_[0]) for s_, d_ in st2.dom.items()), t)
+        except AnalysisError as e:
+            raise AnalysisError("C13.sem", e.message, self.f.node, self.f.module)
 
     def holds(self, st2, conds):
         for c in conds:
@@ -478,13 +453,34 @@ class TextSemantics(object):
         return out
 
     def expected_at(self, row):
+        """(required, allowed): the tokens of the candidates that are valid vectors must be returned;
+        an object built from a part of a candidate that is itself a valid vector may be returned
+        (it is a valid substring of the text; completeness speaks about delimited vectors only)."""
         want = []
+        allowed = []
         for s in row:
             for v in (2, 3):
                 k, t = token_of(self.ctx, v, s)
                 if k == "valid" and t not in want:
                     want.append(t)
-        return want
+            for t in self.valid_parts(s):
+                if t not in allowed:
+                    allowed.append(t)
+        return want, allowed
+
+    def valid_parts(self, s):
+        memo = self.ctx.memo.setdefault(("c13_valid_parts",), {})
+        if s not in memo:
+            out = []
+            for i in range(len(s)):
+                for j in range(i + 11, len(s) + 1):
+                    sub = s[i:j]
+                    for v in (2, 3):
+                        k, t = token_of(self.ctx, v, sub)
+                        if k == "valid" and t not in out:
+                            out.append(t)
+            memo[s] = out
+        return memo[s]
 
 
 def check_text_semantics(ctx, led, rule="C13.sem"):
@@ -530,9 +526,9 @@ def check_text_semantics(ctx, led, rule="C13.sem"):
             if ts.val is None:
                 continue
             got = ts.result_at(st2)
-            want = ts.expected_at(row)
-            if bad is None and (sorted(map(repr, got)) != sorted(map(repr, want))):
-                bad = (row, got, want)
+            want, allowed = ts.expected_at(row)
+            if bad is None and (any(t not in got for t in want) or any(t not in allowed for t in got) or len(set(map(repr, got))) != len(got)):
+                bad = (row, got, want, allowed)
         if esc is not None:
             e, row = esc
             what = e.data.get("what") or e.kind
@@ -544,14 +540,14 @@ def check_text_semantics(ctx, led, rule="C13.sem"):
         else:
             led.ok(rule + ".total", "%s::K=%d" % (ck, K), where, "no exception leaves the function for %d candidate sequences" % len(rows))
         if bad is not None:
-            row, got, want = bad
-            extra = [t for t in got if t not in want]
+            row, got, want, allowed = bad
+            extra = [t for t in got if t not in allowed]
             missing = [t for t in want if t not in got]
             dup = [t for t in got if got.count(t) > 1]
             if missing:
                 what = "the valid vector %s is not returned" % _show(missing[0])
             elif extra:
-                what = "an object %s is returned that no candidate is a valid vector of" % _show(extra[0])
+                what = "an object %s is returned that no part of a candidate is a valid vector of" % _show(extra[0])
             elif dup:
                 what = "equal objects (%s) are returned twice" % _show(dup[0])
             else:
